@@ -105,7 +105,7 @@ def simplify(run):
 
 # ---------------------------------------------------------------------------
 def execute(run):
-    eng = coresim.Engine(run, 'C10')
+    eng = coresim.Engine(run, 'C10', {'C02'})
     rel = eng.execute()
     w = eng.world
     cfg = run['config']
